@@ -244,12 +244,12 @@ impl WorldExec {
         if w.is_empty() { return "bad-op".into(); }
         let is_pass = self.has_reloader && (w[0] == "reload" || w[0] == "enhance" || (w[0] == "notify" && self.static_mode));
         if is_pass {
-            let before = self.snapshot();
+            let before: BTreeMap<(String, String), usize> = self.snapshot().into_keys().map(|k| { let r = self.rid_of(&k.0, &k.1).unwrap_or(0); (k, r) }).collect();
             let out = self.op_inner(line);
-            let after = self.snapshot();
+            let after: BTreeMap<(String, String), usize> = self.snapshot().into_keys().map(|k| { let r = self.rid_of(&k.0, &k.1).unwrap_or(0); (k, r) }).collect();
             if after.keys().any(|k| !before.contains_key(k)) { self.unspecified = true; self.unspecified_why = "new-asset-loaded-during-a-pass"; }
-            // F-C05e: a script asset reloaded in this pass starts to refer to another asset reloaded in this pass
-            let reloaded: Vec<(String, String)> = after.iter().filter(|(k, v)| before.get(*k).map(|b| b.1 != v.1).unwrap_or(false)).map(|(k, _)| k.clone()).collect();
+            // F-C05e: a script asset reloaded in this pass (reload id moved) starts to refer to another asset reloaded in this pass
+            let reloaded: Vec<(String, String)> = after.iter().filter(|(k, v)| before.get(*k).map(|b| b != *v).unwrap_or(false)).map(|(k, _)| k.clone()).collect();
             for k in &reloaded {
                 if !(k.0.starts_with('S') || k.0.starts_with('N') || k.0.starts_with('A')) { continue; }
                 let now = script_refs(self.script_bytes(&k.1).as_deref());
